@@ -180,7 +180,9 @@ func genAny(t *rapid.T) lenCase {
 }
 
 func genPlain(t *rapid.T) lenCase {
-	m := gen.PlainMsg(t, 6, false)
+	// the exactness domain by the statement: every type made of integers, addresses, names and
+	// character-strings (not only the sixteen common ones)
+	m := gen.PlainMsgOf(t, 6, false, gen.FieldPlainTypes)
 	if rapid.IntRange(0, 10).Draw(t, "filler") == 0 {
 		pre := 12
 		for _, q := range m.Q {
